@@ -44,7 +44,7 @@ def read_out(out_dir):
 
 
 def run_convert(spec=None, probes=None, label='', factor=1, extra_files=(), same_dir=False, fill=0,
-                twice=False):
+                twice=False, out_variant=None):
     """Build the source (a generated dataset, or a merge of generated probes), convert it, collect.
 
     Returns a dict: truth / truths, src_before, src_after, out (arrays by file name), exception,
@@ -82,7 +82,9 @@ def run_convert(spec=None, probes=None, label='', factor=1, extra_files=(), same
         elif same_dir == 'relative':
             out_dir = type(src)(os.path.relpath(str(src), os.getcwd()))
         else:
-            out_dir = src if same_dir else d / 'alf'
+            # a legal output directory: elsewhere, or next to the source under a name that begins
+            # with / is a prefix of the source's name, or given as a string
+            out_dir = src if same_dir else [d / 'alf', d / 'src_alf', d / 'sr', str(d / 'alf')][int(fill if out_variant is None else out_variant) % 4]
         m0 = load_model(params)
         m0.close()
         m = load_model(params)       # second open: reads whatever the first one cached on disk
@@ -118,6 +120,7 @@ def run_convert(spec=None, probes=None, label='', factor=1, extra_files=(), same
         res['src_after'] = dsgen.sha1_dir(src)
         if not same_dir:
             res['out'] = read_out(out_dir)
+            out_dir = type(src)(out_dir)
             if res['exception'] is None and os.path.exists(str(out_dir / 'params.py')):
                 try:
                     m2 = load_model(out_dir / 'params.py')
